@@ -81,6 +81,22 @@ def ensure_driver():
                           stdout=subprocess.DEVNULL, stderr=subprocess.DEVNULL)
 
 
+def _prune(d, keep):
+    """bound the size of the memo directory (scratch-repo runs of the self-test create many fact files)"""
+    try:
+        fs = [os.path.join(d, f) for f in os.listdir(d) if f.endswith('.json')]
+        if len(fs) <= keep:
+            return
+        fs.sort(key=lambda f: os.path.getmtime(f))
+        for f in fs[:len(fs) - keep]:
+            try:
+                os.unlink(f)
+            except OSError:
+                pass
+    except OSError:
+        pass
+
+
 class ExtractionError(Exception):
     pass
 
@@ -152,6 +168,7 @@ def extract_facts(repo, config='all', crate='hpke', force=False):
         with open(tmp, 'w') as f:
             json.dump(ordered, f, separators=(',', ':'))
         os.replace(tmp, out)
+        _prune(os.path.join(CACHE, 'facts'), keep=160)
         return out, {'cached': False, 'tree_hash': th}
     finally:
         fcntl.flock(lock, fcntl.LOCK_UN)
